@@ -25,8 +25,9 @@ func TestBatchDuplicateMinimal(t *testing.T) {
 			a := spec.AddrAt(rng, base, po)
 			b := spec.AddrAt(rng, base, po)
 			A, B := boson.NewAddress(a), boson.NewAddress(b)
-			for _, pat := range []string{"a,a", "a,b,a", "a;a,a", "a,a;remove a"} {
-				c := run.Begin(fmt.Sprintf("dup/%d/%d/%s", maxBins, po, pat), map[string]interface{}{"pattern": pat, "max_bins": maxBins, "po": po})
+			for pi, pat := range []string{"a,a", "a,b,a", "a;a,a", "a,a;remove a"} {
+				// (no comma in case ids: the replay filter is a comma-separated list)
+				c := run.Begin(fmt.Sprintf("dup/%d/%d/pattern%d", maxBins, po, pi), map[string]interface{}{"pattern": pat, "max_bins": maxBins, "po": po})
 				if c == nil {
 					continue
 				}
